@@ -6,11 +6,12 @@
    abstract fields (field type x rules x list rules x format x key qualifiers x array/map wrapper x
    required/optional, including shapes no source text can produce).  The BCL lexer/parser is C11's;
    the BCL walker's reflection mechanics are explored by the correspondence streams, not modelled. *)
-From Coq Require Import String List Bool Arith.
-From J5V.lib Require Import Outcome.
-From J5V.gen Require SetExtGen PanicGen.
-From J5V.model Require Import CmpbFields CmpbDecls.
-From J5V.proofs Require Import CmpbFieldsProofs CmpbPanicProofs CmpbDeclsProofs CmpbSchemaProofs.
+From Coq Require Import String List NArith ZArith Bool Arith.
+From J5V.lib Require Import Text Outcome.
+From J5V.gen Require SetExtGen PanicGen WalkerGen.
+From J5V.model Require Import Entity.
+From J5V.model Require Import BclLexer BclParser CmpbFields CmpbDecls CmpbFront CmpbWalker CmpbPackage CmpbEntity.
+From J5V.proofs Require Import BclPosProofs BclBytesProofs CmpbFieldsProofs CmpbPanicProofs CmpbDeclsProofs CmpbSchemaProofs CmpbFrontProofs CmpbPackageProofs CmpbEntityProofs.
 Import ListNotations.
 Local Open Scope string_scope.
 
@@ -38,17 +39,16 @@ Print Assumptions C07_field_imports_cover_extensions.
 (* ---- acceptance of the documented language.  Full statement: *)
 Definition C07_full_statement : Prop := full_language_statement.
 
-(* it does not hold: float rules ("TODO: float rules not implemented") and list rules on an
-   informal key ("unknown key format") are rejected — recorded findings *)
+(* it does not hold: float rules are rejected ("TODO: float rules not implemented") — recorded finding.
+   (List rules on an informal key were the second gap until fix dc2b724.) *)
 Theorem C07_language_refuted : ~ C07_full_statement.
 Proof. exact full_language_refuted. Qed.
 Print Assumptions C07_language_refuted.
 
-(* what holds: everything in the language except those two combinations is accepted and links;
-   missing for the full statement: float rules, informal key + list rules *)
+(* what holds: everything in the language except float rules is accepted and links;
+   missing for the full statement: float rules *)
 Theorem C07_language_accepted_partial : forall p,
-  in_language p = true -> uses_float_rules p = false -> uses_informal_key_listrules p = false ->
-  o_verdict (compile_iso p) = VOk.
+  in_language p = true -> uses_float_rules p = false -> o_verdict (compile_iso p) = VOk.
 Proof. exact language_accepted_partial. Qed.
 Print Assumptions C07_language_accepted_partial.
 
@@ -76,15 +76,11 @@ Print Assumptions C07_sites_agree.
 
 Definition C07_setext_full_statement : Prop := forallb gen_site_ok SetExtGen.sites = true.
 (* every SetExtension passes the extension's declared Go type to the options message the extension
-   extends, in a branch that imports the extension's file — except the list_request call *)
-Theorem C07_setext_typed_partial :
-  forallb gen_site_ok (filter (fun r => negb (is_listrequest_site r)) SetExtGen.sites) = true.
-Proof. exact setext_typed_partial. Qed.
-Print Assumptions C07_setext_typed_partial.
-Theorem C07_setext_typed_refuted :
-  exists r, In r SetExtGen.sites /\ is_listrequest_site r = true /\ gen_site_typed r = false.
-Proof. exact setext_typed_refuted. Qed.
-Print Assumptions C07_setext_typed_refuted.
+   extends, in a branch that imports the extension's file.  Full since fix 985f10a: the one ill-typed call
+   (list_request on MethodOptions, a certain panic) was replaced by a positioned error *)
+Theorem C07_setext_typed : C07_setext_full_statement.
+Proof. exact setext_typed. Qed.
+Print Assumptions C07_setext_typed.
 
 Theorem C07_setj5ext_copy_total : forallb j5ext_call_ok SetExtGen.setj5ext_calls = true.
 Proof. exact setj5ext_calls_ok. Qed.
@@ -114,13 +110,13 @@ Print Assumptions C07_object_shell_accepted.
 
 (* ---- whole files: any number of declarations, objects and oneofs with any number of properties
    (each property contributes what it contributes alone: conversion reads neither the import list nor the
-   errors recorded so far).  Without list requests the converter does not panic and every output file
-   links; a file of in-language declarations (minus the recorded gaps) is accepted; and it stays accepted
+   errors recorded so far).  The converter does not panic and every output file links — for EVERY list of
+   declarations (since fix 985f10a a list request is an error, not a panic); a file of in-language
+   declarations (minus the recorded gaps, which include list requests) is accepted; and it stays accepted
    when any declarations are removed: nothing depends on an unrelated declaration being present *)
-Theorem C07_file_total_links_partial : forall ds, no_list_requests ds ->
-  file_verdict ds <> VPanic /\ file_verdict ds <> VLinkErr.
-Proof. exact file_total_links. Qed.
-Print Assumptions C07_file_total_links_partial.
+Theorem C07_file_total_links : forall ds, file_verdict ds <> VPanic /\ file_verdict ds <> VLinkErr.
+Proof. exact file_total_links_all. Qed.
+Print Assumptions C07_file_total_links.
 Theorem C07_file_accepted_partial : forall ds,
   no_list_requests ds -> forallb decl_in_language ds = true -> file_verdict ds = VOk.
 Proof. exact file_accepted. Qed.
@@ -132,17 +128,18 @@ Print Assumptions C07_file_isolation.
 
 (* services: full statement *)
 Definition C07_service_full_statement : Prop := service_full_statement.
-(* refuted: a method with a list request panics in SetExtension (recorded finding) *)
+(* refuted: a method with a list request is rejected (recorded finding "documented language not accepted:
+   listRequest"; before fix 985f10a it panicked) *)
 Theorem C07_service_refuted : ~ C07_service_full_statement.
 Proof. exact service_full_refuted. Qed.
 Print Assumptions C07_service_refuted.
-(* partial: without list requests a service never panics and always links (whatever its methods:
-   missing request, bad verb, unknown path parameter), and is accepted when in the language;
-   missing for the full statement: methods with a list request *)
-Theorem C07_service_total_links_partial : forall sv, no_list_request (sv_methods sv) ->
+(* EVERY service (any number of methods, also malformed ones, with or without list requests) neither panics
+   nor fails to link *)
+Theorem C07_service_total_links : forall sv,
   verdict_d (compile_service sv) <> VPanic /\ verdict_d (compile_service sv) <> VLinkErr.
 Proof. exact service_total_links. Qed.
-Print Assumptions C07_service_total_links_partial.
+Print Assumptions C07_service_total_links.
+(* partial acceptance: in-language services without list requests; missing for the full statement: list requests *)
 Theorem C07_service_accepted_partial : forall sv,
   service_in_language sv = true -> no_list_request (sv_methods sv) -> verdict_d (compile_service sv) = VOk.
 Proof. exact service_accepted. Qed.
@@ -170,10 +167,171 @@ Theorem C07_panic_sites_agree : panic_sites_same_set = true.
 Proof. exact panic_sites_agree. Qed.
 Print Assumptions C07_panic_sites_agree.
 
+(* ======================================================================================================
+   The FIRST SENTENCE of the property — "for any source text, parsing and compiling returns either
+   descriptors or errors that carry a position inside the offending file; never panics or hangs" — for one
+   source file through the front end (model/CmpbFront.v):
+     bytes -> parse_file (C11's model of the BCL lexer + parser, cited through its theorems)
+           -> walk (the schema-driven walker: NOT modelled, a function parameter with an outcome)
+           -> sourcewalk child / GetPos + conversionVisitor.addError -> the converter model above.
+   ====================================================================================================== *)
+Definition C07_front_end_statement := front_end_statement.
+
+(* totality: for EVERY byte string, both parser modes and every walker that returns, the front end returns
+   (never a panic, never out of fuel).  The lexer / parser part is C11's parse_runes_total and
+   parse_runes_tree_or_diags (a nil tree never reaches ParseAST); the converter part is C07_file_total_links *)
+Theorem C07_front_end_total : forall walk ff input, walker_returns walk ->
+  exists out, front_end walk ff input = Ok out.
+Proof. exact front_end_total. Qed.
+Print Assumptions C07_front_end_total.
+
+(* positions: every error of the parse, walk and convert stages has both ends at positions of the input
+   (C11's parse_runes_positions for diagnostics and tree nodes + the walker's contract + the plumbing below),
+   and an error result is never empty *)
+Theorem C07_front_end_errors_positioned : forall walk ff input st es, walker_contract walk ->
+  front_end walk ff input = Ok (FEErrors st es) ->
+  es <> [] /\ Forall (span_inside (utf8_decode input)) es.
+Proof. exact front_end_errors_positioned. Qed.
+Print Assumptions C07_front_end_errors_positioned.
+
+(* ... in lines and columns of the file as Go sees it (C11_valid_is_inside_bytes) *)
+Theorem C07_front_end_errors_inside_file : forall walk ff input st es, walker_contract walk ->
+  front_end walk ff input = Ok (FEErrors st es) ->
+  Forall (fun sp => inside_bytes input (fst sp) /\ inside_bytes input (snd sp)) es.
+Proof. exact front_end_errors_inside_bytes. Qed.
+Print Assumptions C07_front_end_errors_inside_file.
+
+(* "descriptors or errors": no error reported => every output file was built and links *)
+Theorem C07_front_end_descriptors : forall walk ff input v lf,
+  front_end walk ff input = Ok (FEConverted v lf) ->
+  v = VOk /\ file_nerr (map erase lf) = 0.
+Proof. exact front_end_descriptors. Qed.
+Print Assumptions C07_front_end_descriptors.
+
+(* the statement holds for every walker that returns and respects the position contract.
+   MISSING for the real compiler: that the real walker returns and respects the contract
+   (no model: reviewed census + crash stream with measured coverage + CFrontFile/CFrontErrs correspondence) *)
+Theorem C07_front_end_partial : forall walk,
+  walker_returns walk -> walker_contract walk -> C07_front_end_statement walk.
+Proof. exact front_end_statement_partial. Qed.
+Print Assumptions C07_front_end_partial.
+(* a list request (which panicked before fix 985f10a) is one positioned conversion error *)
+Theorem C07_listrequest_is_a_positioned_error : front_end listreq_walk true [] = Ok (FEErrors SConvert [span0]).
+Proof. exact listreq_is_a_positioned_error. Qed.
+Print Assumptions C07_listrequest_is_a_positioned_error.
+
+(* ---- the error-position plumbing of the converter stage *)
+(* SourceNode.child + GetPos: the position of a node is a span stored in the location tree — its own, or
+   the one of the nearest enclosing node the walker recorded *)
+Theorem C07_position_is_a_recorded_span : forall p t, In (child_span p t) (spans t).
+Proof. exact child_span_in. Qed.
+Print Assumptions C07_position_is_a_recorded_span.
+
+(* every error the converter model emits carries the SourceNode of (a part of) the offending declaration
+   and the position addError attaches is that node's span *)
+Theorem C07_compile_errors_positioned : forall t lf, forallb ldecl_wf lf = true ->
+  forall e, In e (conv_errors t lf) ->
+    (exists d, In d lf /\ In (fst e) (decl_errors d) /\ is_prefix (ldecl_path d) (fst e) = true)
+    /\ snd e = child_span (fst e) t
+    /\ In (snd e) (spans t).
+Proof. exact compile_errors_positioned. Qed.
+Print Assumptions C07_compile_errors_positioned.
+
+(* the error list is the error counter of the converter model (file_nerr, on which file_verdict decides) *)
+Theorem C07_error_list_is_error_count : forall lf, length (file_errors lf) = file_nerr (map erase lf).
+Proof. exact file_errors_length. Qed.
+Print Assumptions C07_error_list_is_error_count.
+Theorem C07_one_error_per_failing_property : forall lp, length (prop_errors lp) <= 1.
+Proof. exact prop_errors_at_most_one. Qed.
+Print Assumptions C07_one_error_per_failing_property.
+
+(* ---- the unmodelled walker: census only (no theorem about it).  Every syntactic run-time panic source in
+   internal/bcl/parse.go and internal/bcl/internal/walker (gen/WalkerGen.v) has a review note and vice versa;
+   the functions holding them exist; the crash stream's measured coverage must include them (CWalkCov) *)
+Theorem C07_walker_census_agree : walker_sites_same_set = true /\ required_funcs_exist = true.
+Proof. exact (conj walker_sites_agree walker_required_funcs_exist). Qed.
+Print Assumptions C07_walker_census_agree.
+
+(* ======================================================================================================
+   A PACKAGE: PackageSet.loadPackage / loadLocalPackage / resolveDependencies with the resolveBaton chain
+   (model/CmpbPackage.v) around the per-file front end.  The link step is not modelled.
+   ====================================================================================================== *)
+(* "never hangs", loader part: the recursion over imports returns for EVERY bundle and every per-file
+   behaviour — the chain of packages being loaded holds distinct local names and cannot outgrow the bundle *)
+Theorem C07_package_load_terminates : forall fres b name, load_package fres b name <> OutOfFuel.
+Proof. exact load_package_terminates. Qed.
+Print Assumptions C07_package_load_terminates.
+
+(* it returns an error list (never a Go error without a list), and panics only if a file's front end does *)
+Theorem C07_package_load_total : forall walk b name,
+  match load_package (front_fres walk) b name with
+  | Ok _ => True
+  | Panic _ => exists f, In f (all_files b) /\ forall out, front_end walk true (sf_input f) <> Ok out
+  | _ => False
+  end.
+Proof. exact load_package_total. Qed.
+Print Assumptions C07_package_load_total.
+
+(* positions, full statement: every error of a package load is positioned inside a file of the bundle *)
+Definition C07_package_errors_positioned_statement : Prop := package_errors_positioned_statement.
+(* refuted: an import of a package nobody provides, and an import cycle, come back WITHOUT a position
+   (recorded findings "no files for package" / "circular dependency detected") *)
+Theorem C07_package_errors_positioned_refuted : ~ C07_package_errors_positioned_statement.
+Proof. exact package_errors_positioned_refuted. Qed.
+Print Assumptions C07_package_errors_positioned_refuted.
+Theorem C07_unknown_package_unpositioned :
+  load_package (front_fres demo_walk) unknown_pkg_bundle 1%N = Ok [mkPE ENoFiles None None].
+Proof. exact unknown_package_unpositioned. Qed.
+Print Assumptions C07_unknown_package_unpositioned.
+Theorem C07_package_cycle_unpositioned :
+  load_package (front_fres demo_walk) cycle_bundle 1%N = Ok [mkPE EPkgCycle None None].
+Proof. exact package_cycle_unpositioned. Qed.
+Print Assumptions C07_package_cycle_unpositioned.
+(* partial: every error is positioned inside a file of the bundle OR is one of those two loader errors.
+   Missing for the full statement: positions for the two loader errors; the link step (not modelled: its
+   errors are positioned in the generated file or, for a file cycle, not at all — recorded findings) *)
+Theorem C07_package_errors_positioned_partial : forall walk b name es, walker_contract walk ->
+  load_package (front_fres walk) b name = Ok es ->
+  Forall (fun e => perr_inside b e \/ (pe_stage e = ENoFiles /\ pe_pos e = None) \/ (pe_stage e = EPkgCycle /\ pe_pos e = None)) es.
+Proof. exact load_errors_positioned_partial. Qed.
+Print Assumptions C07_package_errors_positioned_partial.
+
+(* the import-order loader is one of the outcomes that SOME iteration order of resolveDependencies' map range
+   produces (load_kinds: the order-free description the CPkgLoad correspondence compares with) *)
+Theorem C07_loader_is_an_admissible_order : forall fuel b chain name es,
+  load (fun _ => FRFine) fuel b chain name = Ok es -> In (kind_of es) (load_kinds fuel b chain name).
+Proof. exact load_in_load_kinds. Qed.
+Print Assumptions C07_loader_is_an_admissible_order.
+
+(* ======================================================================================================
+   ENTITIES, by composition with C17 (the `ent` family's model of sourcewalk/entity.go, model/Entity.v):
+   an entity declaration expands (Entity.expand: total, C17_expand_total) into components that the converter
+   visits like hand-written declarations; model/CmpbEntity.v maps them onto the converter model.
+   ====================================================================================================== *)
+(* for EVERY entity declaration: the expansion returns components or one of the walker's two errors, and the
+   converter neither panics on them nor produces a file that fails to link (Entity.v has no
+   query.listRequest: that construct panics — recorded finding, C07_service_refuted) *)
+Theorem C07_entity_total_links : forall e,
+  match compile_entity e with
+  | Ok v => v <> VPanic /\ v <> VLinkErr
+  | Err _ => True
+  | _ => False
+  end.
+Proof. exact compile_entity_total. Qed.
+Print Assumptions C07_entity_total_links.
+
+(* accepted: a closed expansion (C17: closed exactly when the user's own references resolve) with well-formed
+   fields, existing path parameters and known HTTP verbs converts without an error and every file links *)
+Theorem C07_entity_accepted : forall pok cs,
+  closed cs = true -> forallb ofield_ok_deep (Entity.fields_of cs) = true -> forallb (comp_clean pok) cs = true ->
+  entity_verdict pok cs = VOk.
+Proof. exact entity_accepted. Qed.
+Print Assumptions C07_entity_accepted.
+
 (* ---- non-vacuity: concrete members of the language exercising rules, list rules, wrappers *)
 Example C07_example :
   let p := mkProp false (Array (Some (TInteger I64 (Some (mkIR true true (Some true) None false)) true)) (Some true) true) true false in
-  in_language p = true /\ uses_float_rules p = false /\ uses_informal_key_listrules p = false
+  in_language p = true /\ uses_float_rules p = false
   /\ compile_iso p = mkObs VOk [IJ5Ext; IBufValidate; IJ5List] [XField; XValidate; XList]
                            (Some (mkDesc PInt64 NNone true false)).
 Proof. vm_compute. repeat split. Qed.
@@ -196,3 +354,35 @@ Example C07_example_rejected :
   o_verdict (compile_iso (mkProp false (Plain (TObject RNotFound false false)) false false)) = VConvErr
   /\ iso_nerr (mkProp false (Plain (TObject RNotFound false false)) false false) = 1.
 Proof. vm_compute. split; reflexivity. Qed.
+
+(* the front end computes, with a small concrete walker that satisfies the hypotheses (NOT the j5s walker:
+   every top-level block becomes an object located at its header; a block of type `bad` holds a property
+   without schema): a converted file, a conversion error positioned at the block header (the property's
+   own node has no location, so the enclosing one is used), a parser diagnostic *)
+Example C07_example_front_end :
+  walker_returns demo_walk /\ walker_contract demo_walk
+  /\ front_end demo_walk true [97;32;123;10;125;10]%N = Ok (FEConverted VOk [LObject ["elements"; ""] false []])
+  /\ front_end demo_walk true [97;32;123;10;125;10;98;97;100;32;123;10;125;10]%N = Ok (FEErrors SConvert [((2, 0)%Z, (2, 4)%Z)])
+  /\ front_end demo_walk true [120;32;61;32;35;10]%N = Ok (FEErrors SParse [((0, 4)%Z, (0, 4)%Z)]).
+Proof.
+  split; [exact demo_walk_returns|]. split; [exact demo_walk_contract|].
+  repeat split; vm_compute; reflexivity.
+Qed.
+
+(* an entity with data, an object reference to a schema of its own, events, a command with a raw response,
+   a summary, a query with events in Get: accepted; the same with a reference to a missing object: rejected *)
+Example C07_example_entity :
+  let str n := mkU (bs n) (KScalar 9 (bs "string")) false false in
+  let key := mkK (mkU (bs "fooId") (KKey true None None) false false) false in
+  let e := mkE (bs "foo.v1") (bs "Foo") [] [key] [str "name"; mkU (bs "part") (KObject (bs "Part")) false false]
+               [bs "ACTIVE"; bs "INACTIVE"] [mkEv (bs "Create") [str "name"]; mkEv (bs "Archive") []]
+               [mkC None None [mkM (bs "Rename") 2 (bs "rename") [mkU (bs "name") (KScalar 9 (bs "string")) true false] None]]
+               [mkS [] [str "name"]] (Some (mkQ true [] false)) [SObject (bs "Part") [str "x"]] in
+  let bad := mkE (bs "foo.v1") (bs "Foo") [] [key] [mkU (bs "part") (KObject (bs "Missing")) false false]
+               [bs "ACTIVE"] [] [] [] None [] in
+  compile_entity e = Ok VOk /\ compile_entity bad = Ok VConvErr
+  /\ match expand e with
+     | Ok cs => closed cs = true /\ forallb ofield_ok_deep (Entity.fields_of cs) = true /\ forallb (comp_clean true) cs = true
+     | _ => False
+     end.
+Proof. cbv zeta. vm_compute. repeat split. Qed.
